@@ -29,6 +29,7 @@ var (
 	pCutMid       = simrt.NewProbe("byzantine.cut.mid.frame")
 	pLenReject    = simrt.NewProbe("declared.length.must.reject")
 	pLenAccept    = simrt.NewProbe("declared.length.must.accept")
+	pPipelined    = simrt.NewProbe("login.commands.pipelined")
 	pMultiConn    = simrt.NewProbe("codec.several.connections.in.one.world")
 )
 
@@ -354,8 +355,15 @@ func scenarioLogin(c *harness.Ctx) {
 		total += len(cmds[i]) + len(resps[i])
 	}
 	cfgAB, cfgBA := simnet.DrawCfgFor(tp, total), simnet.DrawCfgFor(tp, total)
+	// pipelined: the client issues all commands before it reads any response
+	pipelined := nCmd >= 2 && tp.Bool(1, 3)
+	if pipelined {
+		pPipelined.Hit()
+		cfgAB.Window, cfgBA.Window = 0, 0 // or the two single-threaded ends dead-lock themselves
+	}
 	c.Config["match"] = match
 	c.Config["commands"] = nCmd
+	c.Config["pipelined"] = pipelined
 	var (
 		cliErr, srvErr   error
 		srvDone, cliDone bool
@@ -394,6 +402,24 @@ func scenarioLogin(c *harness.Ctx) {
 			cli, err := mcnet.DialRCON("sim:25575", pwC)
 			cliErr = err
 			if err != nil {
+				cliDone = true
+				return
+			}
+			if pipelined {
+				for i := 0; i < nCmd; i++ {
+					if err := cli.Cmd(cmds[i]); err != nil {
+						cmdErr = fmt.Errorf("Cmd %d: %w", i, err)
+						break
+					}
+				}
+				for i := 0; i < nCmd && cmdErr == nil; i++ {
+					r, err := cli.Resp()
+					if err != nil {
+						cmdErr = fmt.Errorf("Resp %d: %w", i, err)
+						break
+					}
+					gotResps = append(gotResps, r)
+				}
 				cliDone = true
 				return
 			}
